@@ -27,7 +27,7 @@ CONSTANTS Circs,      \* the circuits the explored calls address (a subset of Ci
           MaxLen      \* bound on the history length
 
 AllDev == {"OpCacheKeyedByName", "NodeCacheSurvives", "ApplyWritesVariations", "ToYamlWritesDefaults", "ClearSkipsWhenNoIR",
-           "CollectEdgesAppends", "UpdateVarNoCopy", "EdgeMapStale", "StateStash", "TemplateCacheByPath", "UpdateVarInPlaceWhenPrivate", "DerivedSharesEdgeDicts"}
+           "CollectEdgesAppends", "UpdateVarNoCopy", "EdgeMapStale", "StateStash", "TemplateCacheByPath", "UpdateVarInPlaceWhenPrivate", "DerivedSharesEdgeDicts", "DeriveAppendsToEdgelessBase"}
 
 (* ------------------------------ the universe ------------------------------ *)
 OpIds == {"o1", "o2", "o3", "o4"}
@@ -41,21 +41,22 @@ NtOp  == [t1 |-> "o1", t2 |-> "o2", t3 |-> "o3", t4 |-> "o1", t5 |-> "o4", t6 |-
 NtVar0 == [t1 |-> [k |-> Unset, x0 |-> Unset], t2 |-> [k |-> Unset, x0 |-> Unset],
            t3 |-> [k |-> 7, x0 |-> Unset],     t4 |-> [k |-> Unset, x0 |-> 15], t5 |-> [k |-> Unset, x0 |-> Unset],
            t6 |-> [k |-> 6, x0 |-> Unset]]
-CircIds == {"c1", "c2", "c3", "cy", "d1"}  \* d1: c1.update_template(name="d1") - a derived circuit that shares c1's node objects;        \* cy: the template obtained from CircuitTemplate.from_yaml(path)
+CircIds == {"c1", "c2", "c3", "cy", "d1", "d2"}  \* d1: c1.update_template(name="d1") - a derived circuit that shares c1's node objects;        \* cy: the template obtained from CircuitTemplate.from_yaml(path)
 (* c1: a and b share one NodeTemplate object, c shares only the operator; c2: an operator with the same *name* as
    c1's; c3: shares the template object t1 with c1 and has an operator of the same *structure* under another name *)
 CircNodes0 == [c1 |-> <<[n |-> "a", t |-> "t1"], [n |-> "b", t |-> "t1"], [n |-> "c", t |-> "t4"]>>,
                c2 |-> <<[n |-> "a", t |-> "t6"], [n |-> "b", t |-> "t2"]>>,      \* a (applied first) overrides k of the operator that b uses as declared
                c3 |-> <<[n |-> "a", t |-> "t3"], [n |-> "b", t |-> "t1"]>>,
                cy |-> <<[n |-> "a", t |-> "t5"]>>,
-               d1 |-> <<[n |-> "a", t |-> "t1"], [n |-> "b", t |-> "t1"], [n |-> "c", t |-> "t4"]>>]
+               d1 |-> <<[n |-> "a", t |-> "t1"], [n |-> "b", t |-> "t1"], [n |-> "c", t |-> "t4"]>>,
+               d2 |-> <<[n |-> "a", t |-> "t6"], [n |-> "b", t |-> "t2"]>>]       \* d2 = c2.update_template(name="d2", edges=[a -> b]): c2 has no edges
 CircEdges0 == [c1 |-> <<[s |-> 1, t |-> 2, w |-> 4], [s |-> 3, t |-> 1, w |-> 6]>>, c2 |-> <<>>,
                c3 |-> <<[s |-> 1, t |-> 2, w |-> 8]>>, cy |-> <<>>,
-               d1 |-> <<[s |-> 1, t |-> 2, w |-> 4], [s |-> 3, t |-> 1, w |-> 6]>>]
+               d1 |-> <<[s |-> 1, t |-> 2, w |-> 4], [s |-> 3, t |-> 1, w |-> 6]>>, d2 |-> <<>>]
 (* the edges of c1 and c3 use EdgeTemplates whose operators share the name "E" but multiply by different gains *)
-EdgeGain0 == [c1 |-> 3, c2 |-> 1, c3 |-> 6, cy |-> 1, d1 |-> 3]
+EdgeGain0 == [c1 |-> 3, c2 |-> 1, c3 |-> 6, cy |-> 1, d1 |-> 3, d2 |-> 1]
 (* an extrinsic input (constant array) on the first node when a compile is asked for one *)
-InpVal == [c1 |-> 7, c2 |-> 11, c3 |-> 13, cy |-> 17, d1 |-> 19]
+InpVal == [c1 |-> 7, c2 |-> 11, c3 |-> 13, cy |-> 17, d1 |-> 19, d2 |-> 23]
 VarNames == {"k", "x0"}
 NewVals == [k |-> 9, x0 |-> 40]          \* values written by overrides (distinct from every default)
 
@@ -73,14 +74,15 @@ VARIABLES tv,        \* NtId -> [k, x0]     variation dict of each shared NodeTe
           yhas,      \* the user holds a template obtained from from_yaml (circuit "cy" exists)
           hasIr,     \* per circuit: the template still holds the IR of its last compile (clear=False)
           dhas,      \* the derived circuit d1 exists
+          d2has,     \* the circuit d2 derived from the edge-less c2 exists
           alias,     \* node index -> d1's entry and c1's entry are one (privately copied) NodeTemplate object
           yfresh,    \* M (ghost): the template the user holds should still be exactly what the file says
           handles,   \* functions returned earlier: Seq([c, units])
           last,      \* observable of the last call
           fired,     \* deviations that have influenced an observable so far
           tr         \* call history (hidden from the fingerprint)
-vars == <<tv, od, cn, ce, opCache, nodeCache, stash, yhot, yhas, hasIr, dhas, alias, yfresh, handles, last, fired, tr>>
-View == <<tv, od, cn, ce, opCache, nodeCache, stash, yhot, yhas, hasIr, dhas, alias, yfresh, handles, last, fired>>
+vars == <<tv, od, cn, ce, opCache, nodeCache, stash, yhot, yhas, hasIr, dhas, d2has, alias, yfresh, handles, last, fired, tr>>
+View == <<tv, od, cn, ce, opCache, nodeCache, stash, yhot, yhas, hasIr, dhas, d2has, alias, yfresh, handles, last, fired>>
 
 NoObs == [kind |-> "none", c |-> "none", units |-> <<>>, expect |-> <<>>, exc |-> "none", dec |-> FALSE]
 NoStash == [sizes |-> <<>>, vals |-> <<>>]
@@ -96,7 +98,7 @@ Init == /\ tv = NtVar0
         /\ opCache = EmptyOpCache /\ nodeCache = EmptyNodeCache
         /\ stash = [c \in CircIds |-> NoStash]
         /\ yhot = FALSE /\ yhas = FALSE /\ yfresh = FALSE /\ hasIr = [c \in CircIds |-> FALSE]
-        /\ dhas = FALSE /\ alias = [i \in 1..3 |-> FALSE]
+        /\ dhas = FALSE /\ d2has = FALSE /\ alias = [i \in 1..3 |-> FALSE]
         /\ handles = <<>> /\ last = NoObs /\ fired = {} /\ tr = <<>>
 
 (* ------------------------------- layer M ---------------------------------- *)
@@ -228,9 +230,9 @@ CompileWith(c, vec, clr, nvs, kind, inp) ==
                           ELSE cn[c][j]]]
          ELSE UNCHANGED <<tv, cn>>)
      /\ hasIr' = IF exc = "none" THEN [hasIr EXCEPT ![c] = ~clr] ELSE hasIr
-     /\ UNCHANGED <<od, ce, yhot, yhas, yfresh, dhas, alias>>
+     /\ UNCHANGED <<od, ce, yhot, yhas, yfresh, dhas, d2has, alias>>
 
-Usable(c) == (c = "cy" => yhas) /\ (c = "d1" => dhas)
+Usable(c) == (c = "cy" => yhas) /\ (c = "d1" => dhas) /\ (c = "d2" => d2has)
 Compile(c, vec, clr, dec, inp) ==
   /\ "compile" \in Calls /\ Usable(c) /\ (dec => "decorator" \in Calls) /\ (inp => "input" \in Calls)
   /\ CompileWith(c, vec, clr, NoNv(c), IF dec THEN "compile_dec" ELSE "compile", inp)
@@ -274,7 +276,7 @@ UpdateVar(c, sel, var, arr, zero) ==
                 /\ alias' = IF pair THEN [j \in 1..3 |-> IF j \in ts /\ ~inplace(j) THEN FALSE ELSE alias[j]] ELSE alias
                 /\ UNCHANGED tv
   /\ (IF "UpdateVarNoCopy" \in Dev THEN UNCHANGED alias ELSE TRUE)
-  /\ yfresh' = (IF c = "cy" THEN FALSE ELSE yfresh) /\ UNCHANGED <<yhot, yhas, hasIr, dhas>>
+  /\ yfresh' = (IF c = "cy" THEN FALSE ELSE yfresh) /\ UNCHANGED <<yhot, yhas, hasIr, dhas, d2has>>
   /\ last' = NoObs
   /\ tr' = Append(tr, [a |-> "update_var", c |-> c, vec |-> arr, clr |-> FALSE, node |-> sel, var |-> var, val |-> NewVals[var], dec |-> FALSE, zero |-> zero])
   /\ UNCHANGED <<od, ce, opCache, nodeCache, stash, handles, fired>>
@@ -289,7 +291,7 @@ UpdateEdge(c, q) ==
                                     THEN [ce[cc] EXCEPT ![q].w = 50 + q] ELSE ce[cc]]
   /\ last' = NoObs
   /\ tr' = Append(tr, [a |-> "update_edge", c |-> c, vec |-> FALSE, clr |-> FALSE, node |-> q, var |-> "weight", val |-> 50 + q, dec |-> FALSE])
-  /\ UNCHANGED <<tv, od, cn, opCache, nodeCache, stash, yhot, yhas, yfresh, hasIr, dhas, alias, handles, fired>>
+  /\ UNCHANGED <<tv, od, cn, opCache, nodeCache, stash, yhot, yhas, yfresh, hasIr, dhas, d2has, alias, handles, fired>>
 
 (* read-only / copy-making calls: get_nodes, get_edges (collect_edges), to_yaml, deepcopy, update_template() copy *)
 ReadOnly(c, what) ==
@@ -306,14 +308,14 @@ ReadOnly(c, what) ==
       ELSE UNCHANGED ce)
   /\ last' = NoObs
   /\ tr' = Append(tr, [a |-> what, c |-> c, vec |-> FALSE, clr |-> FALSE, node |-> 0, var |-> "", val |-> 0, dec |-> FALSE])
-  /\ UNCHANGED <<tv, cn, opCache, nodeCache, stash, yhot, yhas, yfresh, hasIr, dhas, alias, handles, fired>>
+  /\ UNCHANGED <<tv, cn, opCache, nodeCache, stash, yhot, yhas, yfresh, hasIr, dhas, d2has, alias, handles, fired>>
 
 ClearAll ==            \* pyrates.clear_frontend_caches()
   /\ "clear_frontend_caches" \in Calls
   /\ opCache' = EmptyOpCache /\ nodeCache' = EmptyNodeCache
   /\ last' = NoObs
   /\ tr' = Append(tr, [a |-> "clear_frontend_caches", c |-> "none", vec |-> FALSE, clr |-> FALSE, node |-> 0, var |-> "", val |-> 0, dec |-> FALSE])
-  /\ UNCHANGED <<tv, od, cn, ce, stash, yhas, yfresh, hasIr, dhas, alias, handles, fired>>
+  /\ UNCHANGED <<tv, od, cn, ce, stash, yhas, yfresh, hasIr, dhas, d2has, alias, handles, fired>>
   /\ yhot' = FALSE
 
 FreshCy == [i \in 1..Len(CircNodes0["cy"]) |-> [n |-> CircNodes0["cy"][i].n, t |-> CircNodes0["cy"][i].t, own |-> FALSE, pv |-> [k |-> Unset, x0 |-> Unset]]]
@@ -326,7 +328,7 @@ LoadYaml ==            \* cy = CircuitTemplate.from_yaml(path): cached by path; 
   /\ yhot' = TRUE /\ yhas' = TRUE /\ yfresh' = TRUE
   /\ last' = NoObs
   /\ tr' = Append(tr, [a |-> "from_yaml", c |-> "cy", vec |-> FALSE, clr |-> FALSE, node |-> 0, var |-> "", val |-> 0, dec |-> FALSE])
-  /\ UNCHANGED <<tv, od, ce, opCache, nodeCache, dhas, alias, handles, fired>>
+  /\ UNCHANGED <<tv, od, ce, opCache, nodeCache, dhas, d2has, alias, handles, fired>>
 
 ClearModel(c) ==       \* pyrates.clear(model): model.clear() if it holds an IR (AttributeError swallowed otherwise), then
                        \* clear_frontend_caches()
@@ -338,7 +340,7 @@ ClearModel(c) ==       \* pyrates.clear(model): model.clear() if it holds an IR 
   /\ hasIr' = [hasIr EXCEPT ![c] = FALSE]
   /\ last' = NoObs
   /\ tr' = Append(tr, [a |-> "clear_model", c |-> c, vec |-> FALSE, clr |-> FALSE, node |-> 0, var |-> "", val |-> 0, dec |-> FALSE])
-  /\ UNCHANGED <<tv, od, cn, ce, yhas, yfresh, dhas, alias, handles, fired>>
+  /\ UNCHANGED <<tv, od, cn, ce, yhas, yfresh, dhas, d2has, alias, handles, fired>>
 
 ExtraEdge == [s |-> 2, t |-> 3, w |-> 2]     \* the edge a derivation may add (b -> c, same edge template as c1's edges)
 Derive(withEdge) ==    \* d1 = c1.update_template(name='d1' [, edges=[extra]]): a new circuit object that references c1's node templates
@@ -348,18 +350,31 @@ Derive(withEdge) ==    \* d1 = c1.update_template(name='d1' [, edges=[extra]]): 
   /\ dhas' = TRUE /\ alias' = [j \in 1..3 |-> cn["c1"][j].own]
   /\ last' = NoObs
   /\ tr' = Append(tr, [a |-> "derive", c |-> "d1", vec |-> withEdge, clr |-> FALSE, node |-> 0, var |-> "", val |-> 0, dec |-> FALSE])
-  /\ UNCHANGED <<tv, od, opCache, nodeCache, yhot, yhas, yfresh, handles, fired>>
+  /\ UNCHANGED <<tv, od, opCache, nodeCache, yhot, yhas, yfresh, d2has, handles, fired>>
+
+ExtraEdge2 == [s |-> 1, t |-> 2, w |-> 2]
+Derive2 ==             \* d2 = c2.update_template(name='d2', edges=[a -> b]) - the base circuit has no edges of its own
+  /\ "derive2" \in Calls
+  /\ cn' = [cn EXCEPT !["d2"] = cn["c2"]]
+  /\ ce' = [ce EXCEPT !["d2"] = ce["c2"] \o <<ExtraEdge2>>,
+                      !["c2"] = IF "DeriveAppendsToEdgelessBase" \in Dev /\ ce["c2"] = <<>> THEN <<ExtraEdge2>> ELSE ce["c2"]]
+  /\ stash' = [stash EXCEPT !["d2"] = NoStash] /\ hasIr' = [hasIr EXCEPT !["d2"] = FALSE]
+  /\ d2has' = TRUE
+  /\ last' = NoObs
+  /\ tr' = Append(tr, [a |-> "derive2", c |-> "d2", vec |-> TRUE, clr |-> FALSE, node |-> 0, var |-> "", val |-> 0, dec |-> FALSE])
+  /\ UNCHANGED <<tv, od, opCache, nodeCache, yhot, yhas, yfresh, dhas, alias, handles, fired>>
 
 CallEarlier(hd) ==     \* evaluate a function returned by an earlier compile: it keeps computing its own model
   /\ "call_earlier" \in Calls /\ hd \in 1..Len(handles)
   /\ last' = [kind |-> "call", c |-> handles[hd].c, units |-> handles[hd].units, expect |-> handles[hd].units, exc |-> "none", dec |-> FALSE]
   /\ tr' = Append(tr, [a |-> "call_earlier", c |-> handles[hd].c, vec |-> FALSE, clr |-> FALSE, node |-> hd, var |-> "", val |-> 0, dec |-> FALSE])
-  /\ UNCHANGED <<tv, od, cn, ce, opCache, nodeCache, stash, yhot, yhas, yfresh, hasIr, dhas, alias, handles, fired>>
+  /\ UNCHANGED <<tv, od, cn, ce, opCache, nodeCache, stash, yhot, yhas, yfresh, hasIr, dhas, d2has, alias, handles, fired>>
 
 Next ==
   \/ \E c \in Circs, vec \in BOOLEAN, clr \in BOOLEAN, dec \in BOOLEAN, inp \in BOOLEAN : Compile(c, vec, clr, dec, inp)
   \/ LoadYaml
   \/ \E withEdge \in BOOLEAN : Derive(withEdge)
+  \/ Derive2
   \/ \E c \in Circs : ClearModel(c)
   \/ \E c \in Circs, vec \in BOOLEAN : \E sel \in 0..Len(cn[c]) : \E var \in VarNames, arr \in BOOLEAN, zero \in BOOLEAN :
          (arr => sel = 0) /\ (zero => "zero" \in Calls) /\ CompileNV(c, sel, var, arr, zero, vec)
@@ -413,6 +428,8 @@ DeriveCopies ==
   [][ (tr' # tr /\ tr'[Len(tr')].a = "derive") =>
         /\ \A i \in 1..Len(cn["c1"]) : \A v \in VarNames : Meaning("d1")'[i][v] = Meaning("c1")[i][v]
         /\ \A c \in CircIds \ {"d1"} : Meaning(c)' = Meaning(c) ]_vars
+Derive2Copies ==
+  [][ (tr' # tr /\ tr'[Len(tr')].a = "derive2") => \A c \in CircIds \ {"d2"} : Meaning(c)' = Meaning(c) ]_vars
 ReadOnlyPreservesMeaning ==
   [][ (tr' # tr /\ tr'[Len(tr')].a \in ReadOnlyKinds) => \A c \in CircIds : Meaning(c)' = Meaning(c) ]_vars
 (* C07: an override changes the addressed nodes' variable and nothing else - in any circuit *)
